@@ -121,6 +121,7 @@ def build(job, pool=None):
 # ------------------------------------------------------------------------------------ run
 def env_for(flavour, logdir, tag, cpu=None):
     e = dict(os.environ)
+    e.pop("VF_PRELUDE", None)
     if cpu:
         e["VF_CASE_CPU"] = str(cpu)
     else:
@@ -272,8 +273,10 @@ def run_job(job, exe, tier, seed, workdir):
             cmd = [exe, "--tier", tier, "--seed", str(seed), "--worker", str(w), "--nworkers", str(nworkers),
                    "--start", str(start), "--log", lp]
             with open(ep, "wb") as ef:
-                p = subprocess.Popen(cmd, stdout=ef, stderr=ef, env=env_for(flavour, workdir, "%s.w%d" % (job["name"], w), cpu_limit),
-                                     cwd=workdir)
+                wenv = env_for(flavour, workdir, "%s.w%d" % (job["name"], w), cpu_limit)
+                if job.get("prelude"):
+                    wenv["VF_PRELUDE"] = "1"
+                p = subprocess.Popen(cmd, stdout=ef, stderr=ef, env=wenv, cwd=workdir)
                 last_size, last_change, timed_out = -1, time.time(), False
                 while True:
                     try:
